@@ -35,6 +35,9 @@ def attr_list(d):
 
 def add(fid, family, flavour, policy=None, limit=None, ttl=None, mem=None, fw=None, result=None, cache_if=False,
         inval_on=False, versioned=False, tags=(), events=(), deps=(), name=None):
+    if family != "meta" and flavour != "thread" and not (tags or events or deps):
+        # a declared tag registers the clear callback, which the harness uses to empty store *and* queue between histories
+        tags = ("rst",)
     fn = f"{'a' if flavour == 'async' else ('t' if flavour == 'thread' else 'g')}{fid}"
     d = dict(policy=policy, limit=limit, ttl=ttl, mem=mem, fw=fw, name=name, tags=list(tags), events=list(events), dependencies=list(deps))
     if flavour == "thread":
